@@ -150,8 +150,7 @@ class RowDenoisingTransformer(BaseEstimator, TransformerMixin):
 
         """
         if scipy.sparse.issparse(X):
-            X.eliminate_zeros()
-            if X.nnz == 0:
+            if X.count_nonzero() == 0:
                 warn("Cannot fit an empty matrix")
                 return self
             self.background_model_ = np.squeeze(
